@@ -43,7 +43,9 @@ func (b *flowBuffer) PutOne(ctx context.Context, m Completed) (chan RedisResult,
 	select {
 	case cmd := <-b.f:
 		cmd.one = m
+		vhook("fb.put.got", b, 0, 0)
 		b.w <- cmd
+		vhook("fb.put.sent", b, 0, 0)
 		return cmd.ch, nil
 	case <-ctx.Done():
 		return nil, ctx.Err()
@@ -54,7 +56,9 @@ func (b *flowBuffer) PutMulti(ctx context.Context, m []Completed, resps []RedisR
 	select {
 	case cmd := <-b.f:
 		cmd.multi, cmd.resps = m, resps
+		vhook("fb.put.got", b, 0, 0)
 		b.w <- cmd
+		vhook("fb.put.sent", b, 0, 0)
 		return cmd.ch, nil
 	case <-ctx.Done():
 		return nil, ctx.Err()
@@ -67,6 +71,7 @@ func (b *flowBuffer) NextWriteCmd() (one Completed, multi []Completed, ch chan R
 	case cmd := <-b.w:
 		one, multi, ch = cmd.one, cmd.multi, cmd.ch
 		b.r <- cmd
+		vhook("fb.nw.move", b, 0, 0)
 	default:
 	}
 	return
@@ -77,6 +82,7 @@ func (b *flowBuffer) WaitForWrite() (one Completed, multi []Completed, ch chan R
 	cmd := <-b.w
 	one, multi, ch = cmd.one, cmd.multi, cmd.ch
 	b.r <- cmd
+	vhook("fb.ww.move", b, 0, 0)
 	return
 }
 
@@ -86,6 +92,7 @@ func (b *flowBuffer) NextResultCh() (one Completed, multi []Completed, ch chan R
 	case cmd := <-b.r:
 		b.c = &cmd.ch
 		one, multi, ch, resps = cmd.one, cmd.multi, cmd.ch, cmd.resps
+		vhook("fb.nr.take", b, 0, 0)
 	default:
 	}
 	return
@@ -95,6 +102,7 @@ func (b *flowBuffer) NextResultCh() (one Completed, multi []Completed, ch chan R
 func (b *flowBuffer) FinishResult() {
 	if b.c != nil {
 		b.f <- queuedCmd{ch: *b.c}
+		vhook("fb.fin", b, 0, 0)
 		b.c = nil
 	}
 }
